@@ -1,3 +1,56 @@
+/-
+C19 — kernel-checked witnesses of the defects that were repaired in /repo by `fix:` commits
+(known_findings.json "fixed" list).  `Model/PrintTokens.lean` and `Gen/LexGen.lean` follow the
+repaired code and `Props/C19.lean` proves it correct; this file keeps the earlier code and shows,
+by evaluation in the kernel (`decide`), inputs on which the printed text does not lex back to the
+tokens.
+
+1. `print_tokens` as published: a newline before an `at_bol` token, one blank if `has_space`, the
+   spelling — nothing else.  `#define N -1` / `-N` gives the tokens `-` `-` `1`, none with `has_space`.
+2. the first `need_space` (commit 4c7d8b6): rule 2 was
+   `is_num && (b == '.' || ((b == '+' || b == '-') && strchr("eEpP", a)))` — a pp-number ending in
+   `.`, `+` or `-` followed by an alphanumeric character was printed glued (`f(1.)f(x)` → `1.x`,
+   `f(1e+)f(5)` → `1e+5`).
+-/
 import ChibiVerif.Model.PrintTokens
+
 namespace ChibiVerif.Findings.C19
+open ChibiVerif.Lex ChibiVerif.LexChar ChibiVerif.Gen.Lex
+
+/-- `print_tokens` before the fix -/
+def printFromOld (first : Bool) : List Tok → List Nat
+  | [] => [10]
+  | t :: ts =>
+    (if !first && t.atBol then [10] else if t.hasSpace && !t.atBol then [32] else []) ++ t.text ++ printFromOld false ts
+
+def minusMinusOne : List Tok :=
+  [⟨.punct, [45], true, false⟩, ⟨.punct, [45], false, false⟩, ⟨.ppnum, [49], false, false⟩]
+
+/-- `-N` with `#define N -1` was printed `--1`, which is the two tokens `--` `1` -/
+theorem C19_fixed_glued_printer :
+    printFromOld true minusMinusOne = [45, 45, 49, 10] ∧
+    spellings (lex (printFromOld true minusMinusOne)) = .ok [[45, 45], [49]] ∧
+    spellings (lex (printFromOld true minusMinusOne)) ≠ .ok (minusMinusOne.map (·.text)) ∧
+    spellings (lex (printTokens minusMinusOne)) = .ok (minusMinusOne.map (·.text)) := by decide
+
+/-- `need_space` of commit 4c7d8b6 (rule 2 without `isalnum(b)`) -/
+def needSpaceCoreV1 (a b : Nat) (isNum : Bool) : Bool :=
+  if (isWordChar a && ((isWordChar b || (b == 34)) || (b == 39))) then true else
+  if (isNum && ((b == 46) || (((b == 43) || (b == 45)) && ([101, 69, 112, 80]).contains a))) then true else
+  if ((a == 46) && isDigit b) then true else
+  ((ops).contains a && (ops).contains b)
+
+def needSpaceV1 (prev tok : List Nat) : Bool :=
+  match prev.getLast?, tok.head? with
+  | some a, some b => needSpaceCoreV1 a b (isNumStart prev)
+  | _, _ => false
+
+/-- `1.` `x` and `1e+` `5`: self-lexing spellings, the old `need_space` asked for no separator, and the glued text is ONE
+    pp-number; the repaired `need_space` asks for the separator -/
+theorem C19_fixed_ppnumber_tail :
+    selfLexing [49, 46] = true ∧ selfLexing [120] = true ∧ needSpaceV1 [49, 46] [120] = false ∧
+    spellings (lex ([49, 46] ++ [120])) = .ok [[49, 46, 120]] ∧ needSpace [49, 46] [120] = true ∧
+    selfLexing [49, 101, 43] = true ∧ selfLexing [53] = true ∧ needSpaceV1 [49, 101, 43] [53] = false ∧
+    spellings (lex ([49, 101, 43] ++ [53])) = .ok [[49, 101, 43, 53]] ∧ needSpace [49, 101, 43] [53] = true := by decide
+
 end ChibiVerif.Findings.C19
